@@ -435,6 +435,22 @@ CLAIMED.update(
     }
 )
 
+CLAIMED.update(
+    {
+        "C24": (
+            "writer/reader agreement: the exporter's assertion renderer and the seed parser's assertion lifter are both interpreted from source over one representative per emitted assert shape and composed (render -> lift -> render); filter-set rule on the parser's per-function loop; handler presence for the exporter's import idiom",
+            "Decides the assertion half of the round trip and the function-level filters: for 14 representatives (object assertions with int / None / True / nested / str / complex values, float, "
+            "type-name, isinstance on a builtin, a module-level and a nested SUT class, collection length, and attribute-path sources) assertion_to_cst and parse_assertion are interpreted "
+            "from source with symbolic libcst terms; the lifted assertion must render to the same text. Nine shapes round-trip; the five that the parser cannot lift on the unchanged tree "
+            "(pytest.approx, the type-name f-string, complex(...), attribute-path receivers for == and len) are known findings, any other failing shape is reported. The seed parser's "
+            "per-function filter must consist of the FunctionDef test and the name-prefix test only (the exporter emits decorated xfail tests named test_<idx>), and the normaliser must "
+            "handle the exporter's import idiom. Round trip of ordinary statements against a test cluster is not decided.",
+            "Trusts sa/engine/peval.py, sa/engine/cstterm.py and the modelling of cst.parse_expression / code generation for names, attribute chains and literals.",
+            "DESIGN.md §3 C24",
+        ),
+    }
+)
+
 NOT_APPLICABLE: dict[str, str] = {
     "C06": "Correctness of the post-dominator/CDG construction on every code object is functional correctness of a graph "
     "algorithm; no shape of the code implies it and no sound static argument in reach bounds 'all code objects'.",
